@@ -8,7 +8,7 @@ use std::hash::{Hash, Hasher};
 use std::rc::Rc;
 use std::sync::Arc;
 
-use pie::resource::map::{GetGlobalMap, MapEqualsChecker, MapKey};
+use pie::resource::map::{GetGlobalMap, MapEqualsChecker, MapKey, MapKeyObjToObj, MapValueObj};
 use pie::task::EqualsChecker;
 use pie::trait_object::KeyObj;
 use pie::verif::NodeKind;
@@ -118,18 +118,47 @@ macro_rules! unit_task { ($name:ident, $tag:expr, $key:ident, $base:expr) => {
 }; }
 unit_task!(ZA, "ZA", ZK1, 7);
 unit_task!(ZB, "ZB", ZK2, 11);
+// Type-erased map keys wrapping the typed keys: `MapKeyObjToObj(K1(n))` is a resource of another type than `K1(n)` (its
+// own global map), although it hashes and prints like it. DynA(v) reads the erased twins of what WA(v) / WB(v) write;
+// DynW(v) writes the erased twins of what A(v) reads.
+#[derive(Clone, PartialEq, Eq, Hash)]
+pub struct DynA(pub u32);
+impl Debug for DynA { fn fmt(&self, f: &mut fmt::Formatter<'_>) -> fmt::Result { write!(f, "Task({})", self.0) } }
+impl Task for DynA {
+  type Output = u32;
+  fn execute<C: Context>(&self, ctx: &mut C) -> u32 {
+    BODY_RUNS.with(|b| b.borrow_mut().push(("DynA", self.0)));
+    let p1 = ctx.read(&MapKeyObjToObj::from(K1(self.0 + 20)), MapEqualsChecker).ok().flatten().is_some() as u32;
+    let p2 = ctx.read(&MapKeyObjToObj::from(K2(self.0 + 10)), MapEqualsChecker).ok().flatten().is_some() as u32;
+    self.0 * 11 + 2 + 1000 * (p1 + p2)
+  }
+}
+#[derive(Clone, PartialEq, Eq, Hash)]
+pub struct DynW(pub u32);
+impl Debug for DynW { fn fmt(&self, f: &mut fmt::Formatter<'_>) -> fmt::Result { write!(f, "Task({})", self.0) } }
+impl Task for DynW {
+  type Output = u32;
+  fn execute<C: Context>(&self, ctx: &mut C) -> u32 {
+    BODY_RUNS.with(|b| b.borrow_mut().push(("DynW", self.0)));
+    let v = self.0;
+    let _ = ctx.write(&MapKeyObjToObj::from(K1(v)), MapEqualsChecker, |w| { w.insert(Box::new(v) as Box<dyn MapValueObj>); Ok(()) });
+    let _ = ctx.write(&MapKeyObjToObj::from(K1(v + 10)), MapEqualsChecker, |w| { w.insert(Box::new(v + 1) as Box<dyn MapValueObj>); Ok(()) });
+    v + 60
+  }
+}
+
 /// Where the model keeps the value of the unit keys ZK1 / ZK2 (inside the K1 / K2 model maps).
 const ZSLOT: u32 = 1000;
 
 #[derive(Clone, Copy, Debug, PartialEq, Eq, PartialOrd, Ord, Hash)]
-pub enum Ty { A, B, Tup, BoxA, RcA, ArcA, BoxB, WA, WB, ZA, ZB }
-const TYS: [Ty; 11] = [Ty::A, Ty::B, Ty::Tup, Ty::BoxA, Ty::RcA, Ty::ArcA, Ty::BoxB, Ty::WA, Ty::WB, Ty::ZA, Ty::ZB];
+pub enum Ty { A, B, Tup, BoxA, RcA, ArcA, BoxB, WA, WB, ZA, ZB, DynA, DynW }
+const TYS: [Ty; 13] = [Ty::A, Ty::B, Ty::Tup, Ty::BoxA, Ty::RcA, Ty::ArcA, Ty::BoxB, Ty::WA, Ty::WB, Ty::ZA, Ty::ZB, Ty::DynA, Ty::DynW];
 
 fn key_of(ty: Ty, v: u32) -> Box<dyn KeyObj> {
   match ty {
     Ty::A => Box::new(A(v)), Ty::B => Box::new(B(v)), Ty::Tup => Box::new(Tup((v,))),
     Ty::BoxA => Box::new(Box::new(A(v))), Ty::RcA => Box::new(Rc::new(A(v))), Ty::ArcA => Box::new(Arc::new(A(v))), Ty::BoxB => Box::new(Box::new(B(v))),
-    Ty::WA => Box::new(WA(v)), Ty::WB => Box::new(WB(v)), Ty::ZA => Box::new(ZA), Ty::ZB => Box::new(ZB),
+    Ty::WA => Box::new(WA(v)), Ty::WB => Box::new(WB(v)), Ty::ZA => Box::new(ZA), Ty::ZB => Box::new(ZB), Ty::DynA => Box::new(DynA(v)), Ty::DynW => Box::new(DynW(v)),
   }
 }
 
@@ -137,7 +166,7 @@ fn require(s: &mut pie::Session, ty: Ty, v: u32) -> u32 {
   match ty {
     Ty::A => s.require(&A(v)), Ty::B => s.require(&B(v)), Ty::Tup => s.require(&Tup((v,))),
     Ty::BoxA => s.require(&Box::new(A(v))), Ty::RcA => s.require(&Rc::new(A(v))), Ty::ArcA => s.require(&Arc::new(A(v))), Ty::BoxB => s.require(&Box::new(B(v))),
-    Ty::WA => s.require(&WA(v)), Ty::WB => s.require(&WB(v)), Ty::ZA => s.require(&ZA), Ty::ZB => s.require(&ZB),
+    Ty::WA => s.require(&WA(v)), Ty::WB => s.require(&WB(v)), Ty::ZA => s.require(&ZA), Ty::ZB => s.require(&ZB), Ty::DynA => s.require(&DynA(v)), Ty::DynW => s.require(&DynW(v)),
   }
 }
 
@@ -146,7 +175,8 @@ fn expected(ty: Ty, v: u32, k1: &BTreeMap<u32, u32>, k2: &BTreeMap<u32, u32>) ->
   let a = |v: u32| v * 3 + k1.get(&v).copied().unwrap_or(0) * 1000 + k1.get(&(v + 10)).copied().unwrap_or(0) * 100_000 + 1;
   let b = |v: u32| v * 5 + k2.get(&v).copied().unwrap_or(0) * 1000 + 1;
   match ty { Ty::A | Ty::BoxA | Ty::RcA | Ty::ArcA => a(v), Ty::B | Ty::BoxB => b(v), Ty::Tup => a(v) * 7 + b(v), Ty::WA => v + 40, Ty::WB => v + 50,
-    Ty::ZA => 7 + k1.get(&ZSLOT).copied().unwrap_or(0) * 1000, Ty::ZB => 11 + k2.get(&ZSLOT).copied().unwrap_or(0) * 1000 }
+    Ty::ZA => 7 + k1.get(&ZSLOT).copied().unwrap_or(0) * 1000, Ty::ZB => 11 + k2.get(&ZSLOT).copied().unwrap_or(0) * 1000,
+    Ty::DynA => v * 11 + 2, Ty::DynW => v + 60 }
 }
 
 fn hash_of(k: &dyn KeyObj) -> u64 { let mut h = DefaultHasher::new(); k.hash(&mut h); h.finish() }
@@ -159,6 +189,8 @@ fn direct_leg(rep: &mut Report, alarm: &dyn Fn(&mut Report, &str, String)) {
     keys.push(("K1".into(), v, Box::new(K1(v))));
     keys.push(("K2".into(), v, Box::new(K2(v))));
     keys.push(("u32".into(), v, Box::new(v)));
+    keys.push(("erased K1".into(), v, Box::new(MapKeyObjToObj::from(K1(v)))));
+    keys.push(("erased K2".into(), v, Box::new(MapKeyObjToObj::from(K2(v)))));
   }
   // zero-sized keys: one value per type
   keys.push(("ZK1".into(), 0, Box::new(ZK1)));
@@ -246,6 +278,8 @@ fn one_case(seed: u64, i: u64, rep: &mut Report) {
           else if let Some(t) = any.downcast_ref::<Box<B>>() { Some((Ty::BoxB, t.0)) }
           else if let Some(t) = any.downcast_ref::<WA>() { Some((Ty::WA, t.0)) }
           else if let Some(t) = any.downcast_ref::<WB>() { Some((Ty::WB, t.0)) }
+          else if let Some(t) = any.downcast_ref::<DynA>() { Some((Ty::DynA, t.0)) }
+          else if let Some(t) = any.downcast_ref::<DynW>() { Some((Ty::DynW, t.0)) }
           else if any.downcast_ref::<ZA>().is_some() { Some((Ty::ZA, 0)) }
           else if any.downcast_ref::<ZB>().is_some() { Some((Ty::ZB, 0)) } else { None };
         match id {
@@ -289,7 +323,7 @@ pub fn run(tier: &str, seed: u64, replay: Option<u64>) -> Report {
   });
   let parts = util::parallel(n, if tier == "miri" { 1 } else { util::threads() }, 32, Report::new, |i, rep: &mut Report| { one_case(seed, i, rep); rep.alarm_total < 20 });
   for p in parts { total.merge(p); }
-  total.rule = "Families with identical representation, hash and debug text: tasks A(u32) (reads K1(v), K1(v+10)), B(u32) (reads K2(v)), Tup((u32,)) (requires the same-valued A and B), Box<A>, Rc<A>, Arc<A>, Box<B>, WA(u32) (writes K1(v+20)), WB(u32) (writes K2(v+10), K2(v+20)); map-key resources K1(u32), K2(u32); zero-sized families (all hash alike because they hash nothing): unit-struct tasks ZA (reads unit key ZK1), ZB (reads unit key ZK2), plus () and PhantomData as keys in the direct leg. Direct leg: ==, Hash and clone on &dyn KeyObj for all ordered pairs of 12 kinds x 3 values and the zero-sized kinds. Build leg: random sequences of sessions requiring random members with values 0..3, interleaved with external changes of K1/K2 entries carrying the same numbers; Oracle: every returned output equals the from-scratch formula for that (type, value); the store dump holds exactly one task node per distinct (type, value) required so far; no abort (a cross-type alias would be diagnosed as overlap / hidden dependency); an immediately repeated session runs no task body. non-trivial = instance that ended with >= 4 distinct tasks.".into();
+  total.rule = "Families with identical representation, hash and debug text: tasks A(u32) (reads K1(v), K1(v+10)), B(u32) (reads K2(v)), Tup((u32,)) (requires the same-valued A and B), Box<A>, Rc<A>, Arc<A>, Box<B>, WA(u32) (writes K1(v+20)), WB(u32) (writes K2(v+10), K2(v+20)); map-key resources K1(u32), K2(u32) and their type-erased twins MapKeyObjToObj(K1(n)) / MapKeyObjToObj(K2(n)) (DynA(v) reads the erased twins of what WA/WB write, DynW(v) writes the erased twins of what A reads: sharing a node would be diagnosed as a hidden dependency or an overlapping write); zero-sized families (all hash alike because they hash nothing): unit-struct tasks ZA (reads unit key ZK1), ZB (reads unit key ZK2), plus () and PhantomData as keys in the direct leg. Direct leg: ==, Hash and clone on &dyn KeyObj for all ordered pairs of 12 kinds x 3 values and the zero-sized kinds. Build leg: random sequences of sessions requiring random members with values 0..3, interleaved with external changes of K1/K2 entries carrying the same numbers; Oracle: every returned output equals the from-scratch formula for that (type, value); the store dump holds exactly one task node per distinct (type, value) required so far; no abort (a cross-type alias would be diagnosed as overlap / hidden dependency); an immediately repeated session runs no task body. non-trivial = instance that ended with >= 4 distinct tasks.".into();
   total.floor("sessions ran", total.get("sessions") > 10 || tier == "miri");
   total
 }
